@@ -285,6 +285,15 @@ def _main(prop, args, seed, t0):
 
     # 2. correspondence -------------------------------------------------------
     eff_tier = "thorough" if broken else tier  # widen the search when a proof broke
+    drift_changed, drift_missing = [], []
+    anchors = getattr(mod, "ANCHORS", None)
+    if anchors:
+        from harness import drift
+        drift_changed, drift_missing = drift.drifted(prop, anchors)
+        if drift_changed or drift_missing:
+            # advisory only: a modelled function was rewritten -> deepest comparison
+            eff_tier = "thorough"
+            log(f"[{prop}] source drift (advisory): changed={drift_changed} missing={drift_missing}")
     rng = random.Random(seed)
     known = load_known()
     evaluations = 0
@@ -405,6 +414,8 @@ def _main(prop, args, seed, t0):
             "input_distribution": dict(sorted(dist.items())),
             "families": per_family,
             "proof_side_broken": broken,
+            "drifted_functions": drift_changed,
+            "missing_anchors": drift_missing,
             "known_findings_hit": sorted(known_hit),
             "replays": replay_paths,
             "lean": {k: info[k] for k in ("lake_build_s", "leanchecker", "lake_errors") if k in info},
